@@ -19,7 +19,7 @@ PROPERTY = 'C14'
 RULE = ('Hypothesis-generated typed constant expression trees (depth <= 5) over int / char / bool literals (boundary grid '
         'per word size, including values outside the signed word range), const variables, + - * / %, comparisons, equality, '
         'and/or/not, unary + -, is int / is byte / is bool; each used as writeln(E), as an if condition, as an array index, '
-        'as a dynamic array length and as a global initialiser. Variants of one tree: all leaves constant, all leaves read '
+        'as a dynamic array length and as a global initialiser; and (every fourth shard) array literals of 1-12 shallow constant expressions of one element type (bool / int / byte) bound to a mutable and a const array and passed as an argument, every element printed. Variants of one tree: all leaves constant, all leaves read '
         'from argv at run time, and drawn subsets of leaves de-constified (typing preserved by construction). Word sizes '
         '{2,3,4}. Oracle: every variant run on the VM must produce the events the reference interpreter computes with '
         'run-time semantics (so all variants agree with each other); the compiler may reject a variant only with a '
@@ -85,6 +85,9 @@ def leaves(e, out):
     elif isinstance(e, Bin):
         leaves(e.l, out)
         leaves(e.r, out)
+    elif isinstance(e, ArrLit):
+        for x in e.elems:
+            leaves(x, out)
     return out
 
 
@@ -144,10 +147,39 @@ def build_variant(expr, mask, consts, ws):
         elif isinstance(x, Bin):
             x.l = sub(x.l)
             x.r = sub(x.r)
+        elif isinstance(x, ArrLit):
+            x.elems = [sub(y) for y in x.elems]
         return x
 
     e = sub(e)
     ty = e.t
+    if isinstance(e, ArrLit):
+        # aggregate: the elements of one array literal are independently constant or run-time values
+        el = ty[1]
+        show = lambda x: Is(x, INT, t=INT) if el == BYTE else x      # noqa
+        semi = ExprStmt(Call('write', [Lit('char', 59, None, t=BYTE)], t=EMPTY))
+        body = list(decls)
+        for nm, const_ in (('agg', False), ('cagg', True)):
+            aty = arr(el, const_)
+            lit_ = copy.deepcopy(e)
+            lit_.t = aty
+            body.append(Decl(aty, True, nm, lit_))
+            iv = Var('i_' + nm, t=INT)
+            body.append(For(Decl(INT, False, 'i_' + nm, Lit('int', 0, None, t=INT)), Bin('<', iv, Len(Var(nm, t=aty), t=INT), t=BOOL),
+                            AugAssign(iv, '+', Lit('int', 1, None, t=INT)),
+                            Block([ExprStmt(Call('write', [show(Index(Var(nm, t=aty), iv, t=el))], t=EMPTY)), semi])))
+            body.append(ExprStmt(Call('writeln', [Len(Var(nm, t=aty), t=INT)], t=EMPTY)))
+        arg = copy.deepcopy(e)
+        arg.t = arr(el, True)
+        body.append(ExprStmt(Call('show', [arg], t=EMPTY)))
+        pty = arr(el, True)
+        jv = Var('j', t=INT)
+        shower = Func(EMPTY, 'show', [Param(pty, True, 'x')], Block([
+            For(Decl(INT, False, 'j', Lit('int', 0, None, t=INT)), Bin('<', jv, Len(Var('x', t=pty), t=INT), t=BOOL),
+                AugAssign(jv, '+', Lit('int', 1, None, t=INT)),
+                Block([ExprStmt(Call('write', [show(Index(Var('x', t=pty), jv, t=el))], t=EMPTY)), semi]))]))
+        prog = Program(gdecls, [shower, Func(EMPTY, '@is_you', [Param(arr(INT, True), True, 'a')], Block(body))])
+        return prog, [argv]
     shown = Is(e, INT, t=INT) if ty == BYTE else e
     body = list(decls)
     body.append(ExprStmt(Call('writeln', [shown], t=EMPTY)))
@@ -170,7 +202,7 @@ def build_variant(expr, mask, consts, ws):
 
 
 def check_tree(stats, expr, ws, masks, consts):
-    nt = nontrivial(expr)
+    nt = nontrivial(expr) or (isinstance(expr, ArrLit) and len(expr.elems) >= 2)
     n = len(leaves(copy.deepcopy(expr), []))
     results = []
     for mask in masks:
@@ -211,6 +243,16 @@ def check_tree(stats, expr, ws, masks, consts):
     return None
 
 
+@st.composite
+def const_aggregate(draw, ws):
+    """Array literal of 1..12 shallow constant expressions of one element type (bool literals are bit-packed, so
+    lengths around 8 matter)."""
+    el = draw(st.sampled_from([BOOL, BOOL, INT, BYTE]))
+    n = draw(st.sampled_from([1, 2, 3, 4, 7, 8, 9, 12]))
+    elems = [draw(const_expr(el, draw(st.sampled_from([0, 0, 1, 2])), ws)) for _ in range(n)]
+    return ArrLit(elems, t=arr(el, False))
+
+
 def shards(tier):
     return list(range(16))
 
@@ -219,7 +261,7 @@ def run_shard(k, seed, tier):
     stats = Stats()
     n = 400 if tier == 'quick' else 6000
     strat = st.sampled_from([2, 3, 4]).flatmap(lambda ws: st.tuples(
-        st.sampled_from([INT, INT, BOOL, BYTE]).flatmap(lambda ty: const_expr(ty, 5, ws)),
+        const_aggregate(ws) if k % 4 == 3 else st.sampled_from([INT, INT, BOOL, BYTE]).flatmap(lambda ty: const_expr(ty, 5, ws)),
         st.just(ws),
         st.lists(st.lists(st.booleans(), min_size=32, max_size=32), min_size=1, max_size=3),
         st.lists(st.booleans(), min_size=32, max_size=32)))
@@ -229,6 +271,8 @@ def run_shard(k, seed, tier):
         masks = [[False] * 32, [True] * 32] + extra_masks
         if stats.evaluations % 150 == 0:
             stats.sample({'expr': ' '.join(hast.printer.expr_tokens(expr)), 'ws': ws})
+        if isinstance(expr, ArrLit):
+            stats.cls('aggregate_trees')
         return check_tree(stats, expr, ws, masks, consts)
 
     import hast.printer  # noqa
